@@ -42,7 +42,11 @@ Layouts ==
      << Seg(0, VBase, 4096, 4096, FALSE), Seg(4096, VBase + 2097152, 8192, 8192, TRUE) >>,
      \* an executable segment whose memory size exceeds its file size by several pages (zero-filled tail)
      << Seg(0, VBase, 5000, 5000 + 12288, TRUE) >>,
-     << Seg(0, VBase, 800, 800, FALSE), Seg(4096, VBase + 4096, 4500, 4500 + 8192, TRUE), Seg(8596, VBase + 28672 + 404, 300, 300, FALSE) >> >>
+     << Seg(0, VBase, 800, 800, FALSE), Seg(4096, VBase + 4096, 4500, 4500 + 8192, TRUE), Seg(8596, VBase + 28672 + 404, 300, 300, FALSE) >>,
+     \* program headers are sorted by vaddr (gABI), NOT by file offset: the lowest segment is stored at the end of the
+     \* file (a segment added to a linked binary by a post-link tool), the executable one before it
+     << Seg(12288, VBase, 800, 800, FALSE), Seg(4096, VBase + 4096, 5000, 5000, TRUE) >>,
+     << Seg(20480, VBase, 800, 800, FALSE), Seg(4096, VBase + 4096, 5000, 5000, TRUE), Seg(12288, VBase + 12288 + 4096, 3000, 3000, FALSE) >> >>
 Types == {"EXEC", "DYN"}
 Biases == {0, 5 * Page, 77 * Page, 0 - 16 * Page}      \* the last one: loaded BELOW the link-time address (prelinked object moved down)
 
